@@ -39,8 +39,19 @@
           :req-heads>100                         requester has more heads than the sample limit
           C16:dup-only-session:req-unknown-sample>=100   full sample, nothing of it known to the responder,
                                                  only duplicates delivered
-          C16:dup-only-session:oneshot-full-response     one-response session whose full response held only
-                                                 commands not covered by any sample address the responder can locate
+          C16:dup-only-session:>=100-uncovered-duplicates   the requester sampled all its heads, yet >= 100 commands
+                                                 arrived, all duplicates, none an ancestor-or-self of a sample
+                                                 address the responder can locate (segment-head sampling
+                                                 under-reports a segment that straddles shared and own commands;
+                                                 the responder sends lowest max cuts first and truncates at 100
+                                                 commands / 100 segments / max cut + 100)
+          C16:dup-only-session:>=100-duplicates-covered-via-midsegment-prior   as above, but the duplicates are
+                                                 ancestors of a located sample address in another segment: the
+                                                 responder queued their segment from its uncovered head and dropped
+                                                 the coverage that arrived through a prior pointing into the middle
+                                                 of it (find_needed_segments / TraversalQueue::push_covered ignores
+                                                 a lower max cut); storage-level observations inseg_ok/straddled
+                                                 are logged by the engine
      C16:commit                commit failed, or the committed set is not old + received
      C16:not-converged         the session loop stopped with commands missing
           :req-heads>100                         ... after sessions of the wide-requester class (livelock)
@@ -106,8 +117,8 @@ Sample(ev) ==
   IF sess.open THEN Fail("C17:session-error:harness:sample-inside-session")
   ELSE IF ~(s \subseteq Holds(ev.req)) \/ Len(ev.sample) > 100 THEN Fail("C16:sample")
   ELSE /\ sess' = [open |-> TRUE, req |-> ev.req, resp |-> ev.resp, idx |-> 0, recv |-> {},
-                   sample |-> s, nsample |-> Len(ev.sample), heads |-> ev.heads, oneshot |-> ev.oneshot,
-                   ended |-> FALSE, full |-> FALSE, uncovered |-> TRUE]
+                   sample |-> s, nsample |-> Len(ev.sample), heads |-> ev.heads, reqheads |-> SeqSet(ev.head_ix),
+                   oneshot |-> ev.oneshot, ended |-> FALSE]
        /\ UNCHANGED <<par, have, held, skip, known>>
 
 (* is command c an ancestor-or-self of a sample address the responder can locate?  (bounded walk
@@ -130,8 +141,7 @@ Response(ev) ==
   ELSE IF ~SA!Sound(cmds, have[resp]) THEN Fail("C17:unsound-command")
   ELSE IF ~SA!ParentsFirst(par, before, cmds) THEN Fail("C17:parents-first")
   ELSE IF ev.add # "ok" THEN Fail("C17:add-commands:" \o ev.add)
-  ELSE /\ sess' = [sess EXCEPT !.idx = @ + 1, !.recv = @ \cup SeqSet(cmds),
-                               !.full = (Len(cmds) = 100)]
+  ELSE /\ sess' = [sess EXCEPT !.idx = @ + 1, !.recv = @ \cup SeqSet(cmds)]
        /\ UNCHANGED <<par, have, held, skip, known>>
 
 End(ev) ==
@@ -141,7 +151,7 @@ End(ev) ==
        /\ UNCHANGED <<par, have, held, skip, known>>
 
 (* classification of a session without progress *)
-NoProgressKey ==
+NoProgressKey(ev) ==
   LET req == sess.req
       resp == sess.resp
       located == sess.sample \cap have[resp]
@@ -149,21 +159,24 @@ NoProgressKey ==
       dupOnly == sess.recv # {} /\ sess.recv \subseteq Holds(req)
   IN IF sess.heads > 100 THEN "C16:no-progress:req-heads>100"
      ELSE IF dupOnly /\ sess.nsample >= 100 /\ located = {} THEN "C16:dup-only-session:req-unknown-sample>=100"
-     ELSE IF dupOnly /\ sess.oneshot /\ sess.full /\ sess.recv \cap covered = {}
-          THEN "C16:dup-only-session:oneshot-full-response"
+     ELSE IF dupOnly /\ Cardinality(sess.recv) >= 100 /\ ev.inseg_ok
+               /\ sess.reqheads \subseteq UpClosure(sess.sample, sess.sample)
+          THEN (IF sess.recv \cap covered = {} THEN "C16:dup-only-session:>=100-uncovered-duplicates"
+                ELSE IF ev.straddled THEN "C16:dup-only-session:>=100-duplicates-covered-via-midsegment-prior"
+                ELSE "C16:no-progress")
      ELSE "C16:no-progress"
 
 Close(ev) ==
   IF ~sess.open THEN Fail("C17:session-error:harness:close-outside-session")
   ELSE IF ~sess.oneshot /\ ~sess.ended THEN Fail("C17:no-end")
   ELSE IF ~SA!ProgressOK(Holds(sess.req), have[sess.resp], sess.recv)
-       THEN /\ Bad(NoProgressKey)
+       THEN /\ Bad(NoProgressKey(ev))
             \* the known classes only delay (or, for wide requesters, prevent) convergence: keep validating
-            /\ known' = (IF NoProgressKey = "C16:no-progress:req-heads>100" \/ known = "C16:no-progress:req-heads>100"
-                        THEN "C16:no-progress:req-heads>100" ELSE NoProgressKey)
+            /\ known' = (IF NoProgressKey(ev) = "C16:no-progress:req-heads>100" \/ known = "C16:no-progress:req-heads>100"
+                        THEN "C16:no-progress:req-heads>100" ELSE NoProgressKey(ev))
             /\ held' = [held EXCEPT ![sess.req] = @ \cup sess.recv]
             /\ sess' = NoSess
-            /\ skip' = (NoProgressKey = "C16:no-progress")
+            /\ skip' = (NoProgressKey(ev) = "C16:no-progress")
             /\ UNCHANGED <<par, have>>
        ELSE /\ held' = [held EXCEPT ![sess.req] = @ \cup sess.recv]
             /\ sess' = NoSess
